@@ -17,6 +17,10 @@ static bool check_buffer(uint16_t st, const uint8_t *p, size_t n, size_t split, 
     uint16_t a = ufw_crc16_arc(st, blk.p, split);
     uint16_t b = ufw_crc16_arc(a, blk.p + split, n - split);
     if (b != want) { ok = false; if (record) vp::fail("octets:concatenation", "continuing over the second part differs from the whole", ser(st, p, n, split)); }
+    {   // the same calls with the count written as an expression, the way callers write it (header length + payload length)
+        size_t h = n / 3, t = n - h;
+        if (ufw_crc16_arc(st, blk.p, h + t) != want || (st == 0 && ufw_buffer_crc16_arc(blk.p, h + t) != want)) { ok = false; if (record) vp::fail("octets:count-expression", "call with the count written as a sum differs", ser(st, p, n, split)); }
+    }
     if (st == 0 && ufw_buffer_crc16_arc(blk.p, n) != want) { ok = false; if (record) vp::fail("octets:buffer-variant", "ufw_buffer_crc16_arc differs from initial value 0", ser(st, p, n, split)); }
     if (n % 2 == 0) {
         std::vector<uint16_t> w(n / 2 + 1);
@@ -25,6 +29,8 @@ static bool check_buffer(uint16_t st, const uint8_t *p, size_t n, size_t split, 
         if (n) memcpy(wb, p, n);
         uint16_t gw = ufw_crc16_arc_u16(st, wb, n / 2);
         if (gw != want) { ok = false; if (record) vp::fail("words:value", vp::fmt("word variant %04x vs octet image %04x", gw, want), ser(st, p, n, split)); }
+        { size_t wh = (n / 2) / 3, wt = n / 2 - wh;
+          if (ufw_crc16_arc_u16(st, wb, wh + wt) != want || (st == 0 && ufw_buffer_crc16_arc_u16(wb, wh + wt) != want)) { ok = false; if (record) vp::fail("words:count-expression", "word variant called with the count written as a sum differs", ser(st, p, n, split)); } }
         if (st == 0 && ufw_buffer_crc16_arc_u16(wb, n / 2) != want) { ok = false; if (record) vp::fail("words:buffer-variant", "ufw_buffer_crc16_arc_u16", ser(st, p, n, split)); }
         free(wb);
     }
